@@ -24,6 +24,8 @@ SD = SPEC / "peakstats"
 DESIGN_REF = "DESIGN.md section 7 (C44)"
 TECHNIQUE = "TLA+ (exact rationals) as oracle checked by TLC over the whole bounded domain; replay of every case into the " \
             "real callback; TLC predicate checking of recorded outputs"
+LEVEL_NOTE = ("TLC 1.8.0 and the CommunityModules are trusted; `exhaustive` refers to the enumerated abstract domain only "
+              "(small-integer x, y in 0..3, n <= 6); the random-array half is predicate checking by TLC on recorded outputs")
 SMALL_JVM = ["-XX:-UseParallelGC", "-XX:+UseSerialGC", "-Xss64m"]
 TOL = 1e-9
 
